@@ -87,6 +87,28 @@ def coords_to_probe(cells, size):
     return sorted(p for p in pts if p[0] >= 1 and p[1] >= 1)
 
 
+def stale_dimension(path, sheets):
+    """Rewrite the <dimension ref> records of the sheets to a range SMALLER than the cells actually stored (a stale record, as tools
+    that append cells without updating it leave behind): the record is a hint, the cells of the file are what the workbook holds."""
+    import re
+    import shutil
+    import zipfile
+    tmp = path + '.tmp'
+    with zipfile.ZipFile(path) as zin, zipfile.ZipFile(tmp, 'w', zipfile.ZIP_DEFLATED) as zout:
+        names = [n for n in zin.namelist()]
+        sheet_files = sorted((n for n in names if re.fullmatch(r'xl/worksheets/sheet\d+\.xml', n)), key=lambda n: int(re.findall(r'\d+', n)[-1]))
+        for n in names:
+            data = zin.read(n)
+            if n in sheet_files:
+                z = sheets[sheet_files.index(n)]['size'] if sheet_files.index(n) < len(sheets) else {'cols': 0, 'rows': 0}
+                c, r = max(1, min(z['cols'], 16384) - 1), max(1, z['rows'] - 1)
+                if (c, r) != (1, 1) and (c < z['cols'] or r < z['rows']):
+                    ref = f'A1:{repo.col_letters(c)}{r}'.encode()
+                    data = re.sub(rb'<dimension ref="[^"]*"', b'<dimension ref="' + ref + b'"', data, count=1)
+            zout.writestr(zin.getinfo(n), data)
+    shutil.move(tmp, path)
+
+
 def _job(args):
     idx, recs, scratch = args
     try:
@@ -114,6 +136,8 @@ def _job(args):
                 ch.add_data(Reference(wb.worksheets[0], min_col=1, min_row=1, max_row=2))
                 pending_chart.add_chart(ch)
             wb.save(x)
+            if (idx + k) % 4 == 2:
+                stale_dimension(x, rec['sheets'])
             ev = {'sheets': rec['sheets'], 'titles': [], 'sizes': [], 'cells': [], 'err': ''}
             try:
                 (shared or repo.Parser()).set_excel_file_path(x).write_translation(p)
